@@ -420,8 +420,7 @@ def check_output(
 
                 async def aio_wrapper():
                     res = await wrapped(*args, **kwargs)
-                    validate(res, wrapped)
-                    return res
+                    return validate(res, wrapped)
 
                 return aio_wrapper()
             else:
